@@ -1497,7 +1497,11 @@ class LLHRatioAnalysis(
             minimization process of the negative of the log-likelihood ratio
             function.
         """
-        events_list = [data.exp for data in self._data_list]
+        # The trial data manager adopts the given events array, i.e. it adds
+        # its static data fields to it and sorts it in place. Hence, a copy of
+        # the experimental data is used in order to keep the data stored in the
+        # DatasetData instances unaltered.
+        events_list = [data.exp.copy() for data in self._data_list]
         self.initialize_trial(events_list)
 
         (log_lambda, fitparam_values, status) = self._llhratio.maximize(
